@@ -118,9 +118,10 @@ Qed.
 (* the verdicts the driver evaluates on trace lines (Spec/CaseOk.v) are, on every case in scope, the
    correspondence and the property relation themselves *)
 Lemma verdict_in_scope c r : case_okb c = true ->
-  prop_verdict c r = prop_case c r /\ corr_verdict c r = result_eqb (run_case c) r.
+  prop_verdict c r = prop_case c r /\ (costly c = false -> corr_verdict c r = result_eqb (run_case c) r).
 Proof.
-  unfold case_okb, prop_verdict, corr_verdict. rewrite !andb_true_iff. intros [_ Hl]. rewrite Hl. split; reflexivity.
+  unfold case_okb, prop_verdict, corr_verdict, model_consulted. rewrite !andb_true_iff. intros [_ Hl]. rewrite Hl.
+  split; [reflexivity|]. intros ->. reflexivity.
 Qed.
 
 Theorem master_verdict c : In (c_op c) all_ops -> case_okb c = true -> prop_verdict c (run_case c) = true.
